@@ -7,9 +7,9 @@ C = {}
 def add(pid, technique, text, note):
     C[pid] = dict(technique=technique, text=text, note=note, ref="DESIGN.md §2 " + pid)
 
-add("C01", "property-based testing (rapid) over byte-level generators + exhaustive prefix enumeration of the repository's snippets; oracle: no panic / returns under watchdog / err == nil / input buffer unchanged; thorough adds native go test -fuzz",
-    "Exploration: every byte prefix of every repository test snippet with hostile tails, hundreds of thousands of mutated / dictionary-soup / random inputs x versions x {callback, nil}, PHP 5 semantic-error programs without callback, and a 4x-size-vs-time smoke test on ten 0.3-1.2 MB shapes. No proof of absence.",
-    "Linear time is only a coarse wall-clock guard (best of 3, 10x bound for 4x size); inputs > 1.2 MB not explored; hangs are detected by a 20 s watchdog.")
+add("C01", "property-based testing (rapid) over byte-level generators + exhaustive prefix enumeration of the repository's snippets; oracle: no panic / returns under watchdog / err == nil / input buffer unchanged; generated repetition shapes measured in thread CPU time at three sizes for the proportional-time clause; thorough adds native go test -fuzz",
+    "Exploration: every byte prefix of every repository test snippet with hostile tails, hundreds of thousands of mutated / dictionary-soup / random inputs x versions x {callback, nil}, PHP 5 semantic-error programs without callback, and a generated search for super-linear behaviour (drawn lexical context x drawn repeated unit x optional nesting, 24/96/384 KiB, CPU-time ratios) plus ~35 fixed shapes up to 1 MiB. No proof of absence.",
+    "Proportional time is decided by growth ratios of thread CPU time on repetition shapes (violation: > 10x for 4x the input at two consecutive size steps), so polynomial blow-ups are found but a large constant factor is not; inputs > 1 MiB are not explored; hangs are detected by a 20 s watchdog. One scaling finding is open (unterminated-opener-rescan) and its trigger is excluded from the search by an input pre-filter (counted).")
 add("C02", "property-based testing (rapid): grammar-based program generator with drawn trivia + byte-level inputs; round-trip oracle print(parse(src)) == src, with an independent token render to localise faults",
     "Exploration: generated programs of both families under four trivia policies incl. CRLF, comments, shebang, close tags, heredocs, > 2 pool blocks; error-free byte-level inputs. Byte-exact comparison.",
     "Generated programs avoid the constructs behind open findings (counted in the evidence); lone CR between tokens is excluded because of finding lone-cr-newline.")
